@@ -59,7 +59,27 @@ def main():
     if BEGIN not in s or END not in s:
         raise SystemExit('markers not found in DESIGN.md')
     a, b = s.index(BEGIN), s.index(END) + len(END)
-    open(p, 'w').write(s[:a] + '\n'.join(out) + s[b:])
+    s = s[:a] + '\n'.join(out) + s[b:]
+    # seeded changes
+    SB, SE = '<!-- SEEDED-BEGIN -->', '<!-- SEEDED-END -->'
+    res_path = os.path.join(HERE, 'seeded', 'results.json')
+    if SB in s and SE in s and os.path.exists(res_path):
+        res = json.load(open(res_path))
+        rows = [SB, '', '| id | property | change (file: what) | caught by (rules that report it) | first run |', '|---|---|---|---|---|']
+        for sid in sorted(res):
+            r = res[sid]
+            meta_p = os.path.join(HERE, 'seeded', sid, 'meta.json')
+            meta = json.load(open(meta_p)) if os.path.exists(meta_p) else {}
+            fired = '; '.join(', '.join(v) for _, v in sorted(r.get('fired', {}).items())) or '-'
+            first = meta.get('first_run', '')
+            summ = (r.get('summary') or '').replace('|', '/').replace('\n', ' ')
+            if len(summ) > 230:
+                summ = summ[:227] + '...'
+            rows.append(f'| {sid} | {r.get("property")} | `{r.get("file")}`: {summ} | {fired} | {first} |')
+        rows += ['', SE]
+        a, b = s.index(SB), s.index(SE) + len(SE)
+        s = s[:a] + '\n'.join(rows) + s[b:]
+    open(p, 'w').write(s)
     print(f'wrote rules for {len(props)} properties')
 
 
